@@ -759,6 +759,7 @@ func NewOpLib() *OpLib {
 	})
 	addC20Ops(l)
 	addC10Ops(l)
+	addAutoCfgOps(l)
 	return l
 }
 
